@@ -1,4 +1,3 @@
-import functools as ft
 import inspect
 from typing import Any, Callable, Dict, Iterable, List, Optional
 
@@ -57,7 +56,6 @@ class PydanticValidator(base.BaseValidator):
 
         return {attr: getattr(obj, attr) for attr in obj.model_fields} if self._coerce else bound_params.arguments
 
-    @ft.lru_cache(maxsize=None)
     def build_validation_schema(self, signature: inspect.Signature) -> Dict[str, Any]:
         """
         Builds pydantic model based validation schema from method signature.
